@@ -26,6 +26,7 @@ __CPROVER_ensures(token->type == SCPI_TOKEN_UNKNOWN ==> (token->len == 0 && (RET
 __CPROVER_ensures(token->type != SCPI_TOKEN_UNKNOWN ==> (token->len >= 0 && __CPROVER_pointer_in_range_dfcc(POS0(state), token->ptr, state->pos)
     && OFF(token->ptr) + token->len <= OFF(state->pos) && DISP(state) > 0))
 __CPROVER_ensures((token->type != SCPI_TOKEN_UNKNOWN && token->type != SCPI_TOKEN_ARBITRARY_BLOCK_PROGRAM_DATA) ==> token->len > 0)
+__CPROVER_ensures((token->type == SCPI_TOKEN_SINGLE_QUOTE_PROGRAM_DATA || token->type == SCPI_TOKEN_DOUBLE_QUOTE_PROGRAM_DATA || token->type == SCPI_TOKEN_PROGRAM_EXPRESSION) ==> token->len >= 2)
 /* trailing white space belongs to the item */
 __CPROVER_ensures(NEXT_NOT(state, ISWS))
 ;
@@ -63,6 +64,8 @@ __CPROVER_ensures(IS_HEADER_TYPE(state->programHeader.type) || state->programHea
 __CPROVER_ensures(IS_HEADER_TYPE(state->programHeader.type) ==> (state->programHeader.len > 0
     && __CPROVER_pointer_in_range_dfcc(buffer, state->programHeader.ptr, buffer + RET)
     && OFF(state->programHeader.ptr) + state->programHeader.len <= OFF(buffer) + RET))
+/* a header never ends in CR or LF (so trimming the terminator cannot eat into it) */
+__CPROVER_ensures(IS_HEADER_TYPE(state->programHeader.type) ==> (state->programHeader.ptr[state->programHeader.len - 1] != '\r' && state->programHeader.ptr[state->programHeader.len - 1] != '\n'))
 __CPROVER_ensures(state->programHeader.type == SCPI_TOKEN_UNKNOWN ==> state->programHeader.len == 0)
 __CPROVER_ensures(state->programHeader.type == SCPI_TOKEN_INVALID ==> (state->programHeader.len == 1 && state->programData.len == 0))
 /* program data: empty, or the list that follows the header and its white space, inside the unit */
